@@ -102,6 +102,15 @@ def make_case(seed, index, tier):
                 adjust[-1]['amounts'] = {field: rng.choice([0, 1, 1, 2, 5, 9]) * unit
                                          for field in fields if rng.random() < 0.8} or {
                                              fields[0]: unit}
+    unlimited = kind == 'resources' and rng.random() < 0.15
+    if unlimited:
+        # one more resource of which there is an unlimited amount ('inf' in the JSON): some
+        # users take of it, nobody adjusts it - its level is infinite at all times
+        supply = dict(supply, u='inf')
+        for user in users:
+            for round_ in user['rounds']:
+                if rng.random() < 0.3 and not round_.get('shared'):
+                    round_['amounts'] = dict(round_['amounts'], u=rng.choice([1, 2, 1000]))
     return {'seed': seed, 'index': index, 'tier': tier,
             'scenario': {'kind': kind, 'supply': supply, 'users': users, 'adjust': adjust}}
 
@@ -128,7 +137,16 @@ class Pool:
         fields = ledger.fields
         levels = self.levels()
         ledger.stats['ledger_checks'] += 1
-        if any(levels[field] < 0 for field in levels):
+        infinite = [field for field in fields if self.supply.get(field) == float('inf')]
+        if infinite:
+            # there is no arithmetic to do on an unlimited resource: it stays unlimited
+            fields = [field for field in fields if field not in infinite]
+            for field in infinite:
+                if levels[field] != float('inf'):
+                    ledger.violation('not-conserved', '%s: the level of the unlimited resource '
+                                     '%r is %r at %r (%s)' % (self.name, field, levels[field],
+                                                              now, where))
+        if any(not levels[field] >= 0 for field in levels):
             ledger.violation('negative-level', '%s: levels %s at %r (%s)' % (
                 self.name, levels, now, where))
         outstanding = vec_sub(self.supply, levels, fields)
@@ -238,6 +256,8 @@ def earlier_simulation(resource, supply):
 
 def build_for(case):
     scenario = case['scenario']
+    scenario = dict(scenario, supply={field: float('inf') if value == 'inf' else value
+                                      for field, value in scenario['supply'].items()})
     fields = sorted(scenario['supply'])
 
     def build(arena):
